@@ -22,7 +22,7 @@ func GenC14(r *RNG) *SrvPlan {
 			Resp: &Resp{Status: 200, Mode: "buffered", BodyLen: 3, ErrAt: -1, Fields: []HF{{"x-rid", fmt.Sprint(i)}}}}
 		l.Ops = append(l.Ops, Op{Kind: "headers", Fields: fields, Pad: -1, TableSize: -1})
 		rest := per
-		style := r.Intn(3)
+		style := r.Intn(4)
 		for rest > 0 {
 			k := 16384
 			pad := -1
@@ -32,6 +32,12 @@ func GenC14(r *RNG) *SrvPlan {
 			case 2:
 				pad = Pick(r, -1, 0, 1, 100, 255)
 				k = 16384 - 256
+			case 3:
+				// empty DATA frames in between (legal; what a proxy forwarding chunk boundaries one to one sends):
+				// nothing was consumed, so nothing is to be handed back, and an increment of 0 is an error
+				if r.Intn(4) == 0 {
+					l.Ops = append(l.Ops, Op{Kind: "data", Len: 0, Pad: Pick(r, -1, -1, 0), TableSize: -1})
+				}
 			}
 			if k > rest {
 				k = rest
